@@ -148,7 +148,8 @@ func (n *CandidateNode) getParsedKey() interface{} {
 		return n.Key.Value
 	}
 	index, err := parseInt(n.Key.Value)
-	if err != nil {
+	if err != nil || (n.Parent != nil && n.Parent.Kind == MappingNode && fmt.Sprintf("%v", index) != n.Key.Value) {
+		// a map key is addressed by its text: 0x10 and 007 are not the keys 16 and 7
 		return n.Key.Value
 	}
 	return index
